@@ -159,7 +159,9 @@ class SCPConnection(object):
 
         # Calculate the receive length, this should be the smallest power of
         # two greater than the required size
-        max_length = buffer_size + consts.SDP_HEADER_LENGTH
+        # (2 bytes of padding, the SDP header, cmd_rc, seq and up to three
+        # argument words preceed the data.)
+        max_length = buffer_size + consts.SDP_HEADER_LENGTH + 2 + 4 + 12
         receive_length = int(2**math.ceil(math.log(max_length, 2)))
 
         class TransmittedPacket(object):
